@@ -9,10 +9,12 @@ CONSTANTS
   MaxRtx = 2
   MaxT1 = 2
   Win = 2
+  Rwnd = 9
+  DelaySack = FALSE
   Deviations = {}
   NetMode = "set"
   Budget = 0
   Props = {"C01", "C12", "C13"}
-INVARIANTS TypeOK PrefixDelivery OneToOne OpenOnce OpenBeforeMessage ConsecutiveTsn WindowRespected
+INVARIANTS TypeOK PrefixDelivery OneToOne OpenOnce OpenBeforeMessage ConsecutiveTsn WindowRespected NewDataWithinWindow
 PROPERTIES SetupIdempotent
 CHECK_DEADLOCK FALSE
